@@ -504,6 +504,24 @@ package types
 //@   ensures [C05.mux.nomatch] !maphas(mux.m, path) && (forall k int :: 0 <= k && k < len(mux.es) ==> !uf_b_HasPrefix(path, mux.es[k].pattern)) ==> h == nil && pattern == ""
 //@   ensures [C05.mux.prefix]  !maphas(mux.m, path) && pattern != "" ==> uf_b_HasPrefix(path, pattern)
 
+// registration: a pattern that ends in a slash becomes a prefix entry (placed first), any other pattern an exact entry;
+// the handler registered is the one given, under the pattern given; earlier registrations are kept
+//@ func appendSorted(es, e)
+//@   props C05
+//@   modifies Mem(es)
+//@   opt splitappend
+//@   ensures [C05.mux.insert.len]   len(result) == len(es) + 1
+//@   ensures [C05.mux.insert.first] result[0].pattern == e.pattern && result[0].h == e.h
+//@   ensures [C05.mux.insert.rest]  forall k int :: 0 <= k && k < len(es) ==> result[k + 1].pattern == old(es[k].pattern) && result[k + 1].h == old(es[k].h)
+//@ func (*ServeMux).Handle(pattern, handler)
+//@   props C05
+//@   requires mux != nil && pattern != "" && handler != nil && !maphas(mux.m, pattern)    // the documented panics: empty pattern, nil handler, second registration
+//@   modifies *
+//@   let prefix = at(pattern, len(pattern) - 1) == 47
+//@   ensures [C05.mux.reg.prefix] prefix ==> calls(appendSorted) == 1 && arg(appendSorted, 1, e).pattern == pattern && arg(appendSorted, 1, e).h == handler && mux.es == ret(appendSorted, 1)
+//@   ensures [C05.mux.reg.exact]  !prefix ==> calls(appendSorted) == 0 && maphas(mux.m, pattern) && mapval(mux.m, pattern).h == handler && mapval(mux.m, pattern).pattern == pattern
+//@   ensures [C05.mux.reg.hosts]  at(pattern, 0) != 47 ==> mux.hosts
+
 // connection wrappers: what their constructors in engine/server.go establish
 //@ spec wscOK(w *WebSocketConn) bool = w != nil && w.EventEmitter != nil && w.Conn != nil
 //@ spec wtcOK(w *WebTransportConn) bool = w != nil && w.EventEmitter != nil && w.Conn != nil && w.Conn.session != nil
